@@ -150,6 +150,9 @@ class NumPathsOptimization(pathmodel.AbstractPathModelDAG): # Note that we inher
         
         self.solve_time_start = time.perf_counter()
         previous_solution_objective_value = None
+        # A (re-)solve starts from scratch: whatever an earlier solve() of this object found is no longer the answer of this run
+        self._is_solved = False
+        self._solution = None
         solve_status = None
         found_feasible = False
 
